@@ -197,6 +197,13 @@ func buildStrategyEngines(
 
 	dfaConfig := lazy.DefaultConfig()
 	dfaConfig.MaxStates = config.MaxDFAStates //nolint:staticcheck // legacy API compat
+	if config.MaxDFAStates != DefaultConfig().MaxDFAStates {
+		// lazy.Config ignores MaxStates while CacheCapacityBytes is set, and
+		// lazy.DefaultConfig() always sets it (2 MB): an explicitly configured
+		// MaxDFAStates would otherwise have no effect at all. Clearing the byte
+		// capacity makes the lazy DFA derive its capacity from MaxStates.
+		dfaConfig.CacheCapacityBytes = 0
+	}
 	dfaConfig.DeterminizationLimit = config.DeterminizationLimit
 
 	result = buildReverseSearchers(result, strategy, re, nfaEngine, dfaConfig, config)
